@@ -83,6 +83,14 @@ def sse_sparse(w, h, g, n=4, to=300):
                  what="returned SSE identical")
 
 
+def sse_sparse_real(w, h, g, n=2, to=300):
+    return Query(name=f"spatial_sse_8bit_avx2_eq_c_{w}x{h}_real{n}_g{g}", harness="C07/sse8.c", simd=True,
+                 defines=[f"W={w}", f"H={h}", f"SPARSE_G={g}", f"SPARSE_N={n}", "V_REAL_SQUARE=1"], unwind=max(258, ((w + 31) // 32) * 32 * h + 2), timeout=to,
+                 funcs=["svt_spatial_full_distortion_kernel_avx2", "svt_spatial_full_distortion_kernel_c"],
+                 bound=f"block {w}x{h}; pixels {g * n}..{g * n + n - 1} (raster order) of input and recon arbitrary (all 2^{16 * n} contents), all other bytes 0x80 in both; real multiplications (no squaring abstraction)",
+                 what="returned SSE identical")
+
+
 _PRED_CACHE = {}
 
 
@@ -175,6 +183,8 @@ def queries(tier):
     qs += [pred(*x, to=600) for x in pred_selected(tier)]
     qs += [quant(a, b) for a, b in ((4, 4), (8, 8), (9, 10), (13, 16), (21, 27), (40, 48), (83, 8), (83, 97), (160, 212), (255, 311), (400, 500), (640, 800), (1000, 1200), (1336, 1336), (4, 1336), (1336, 4))]
     qs += [quant(a, b, k) for k in (1, 2) for a, b in ((4, 4), (83, 8), (160, 212), (640, 800), (1336, 1336))]
+    if tier == "probe":
+        return [sse_sparse(28, 1, 6, 4, 600), sse_sparse(20, 1, 4, 4, 600)]
     if tier == "thorough":
         qs += [conv(w) for w in (1, 2, 3, 5, 7, 12, 16, 17, 31, 33, 48, 63, 65, 72, 96, 128)]
         qs += [quant(9, 10, 1), quant(9, 10, 2), quant(21, 27, 1), quant(21, 27, 2)]
